@@ -21,7 +21,8 @@ def run(run):
             ("corpus:corpus/C09/error-during-reload.jsonl", 0, 0), ("corpus:corpus/C09/duplicate-name-objects.jsonl", 0, 0),
             ("f8", 4, run.seed), ("stale", 4, run.seed), ("errwin", 15 if quick else 150, run.seed), ("multifail", 20 if quick else 200, run.seed + 5),
             ("c11dup", 8 if quick else 40, run.seed + 3),
-            ("c09", 1500 if quick else 20000, run.seed), ("boot", 300 if quick else 3000, run.seed + 1),
+            ("failreload", 48 if quick else 800, run.seed + 7), ("stoperr", 36 if quick else 600, run.seed + 8),
+            ("c09", 1450 if quick else 20000, run.seed), ("boot", 300 if quick else 3000, run.seed + 1),
             ("c11", 400 if quick else 5000, run.seed + 2)]
     results, cover, summary, scripts, traces = L.run_families(run, fams)
     cnt = L.classify(run, "C09", results, scripts, traces)
@@ -32,6 +33,9 @@ def run(run):
                          "membership, the reloader parked on one of 12 log records delimiting its steps, then Stop()/cancel/a second "
                          "Reload()/nothing injected, both Stop styles, 1 in 6 with a real composite.Runner child), errwin (an old child returns a real error when the reload stops it while the reloader is parked at one of its steps: Run's "
                          "failure teardown meets a reload in progress), c11dup (duplicate entry names incl. two distinct runnables with one String()), "
+                         "failreload (a child fails while a Reload() is in progress: held inside a child's ReloadWithConfig/Reload, parked before/after "
+                         "stopAllRunnables and boot, behind the failing child's parked goroutine, with a second Reload() or Run()'s own teardown holding "
+                         "reloadMu), stoperr (1-3 children returning a real error in reaction to Stop()/cancel, racing Stop()/cancel/Reload()), "
                          "boot (Reload/Stop/cancel while Run is booting), c11 (unparked reload histories incl. concurrent callers)")
     run.assumptions += ["every child's Run returns once signalled or cancelled (it may also return earlier, with any result - a failure "
                         "included; only a Run that never returns is excluded): contract of coq/model/Composite.v; "
